@@ -350,13 +350,18 @@ def build_manager(grid, ref, setting, ground, transparent, log, lock_dir):
 
 
 def raised_in_harness(exc):
-    """True if the innermost frame of the traceback is harness code (then it is a harness error, not a verdict)"""
+    """True if the deepest traceback frame that belongs to either the harness or MapProxy is harness code
+    (a bug or resource problem of the synthetic client / recording cache is a harness error, never a verdict)."""
     tb = exc.__traceback__
-    last = None
+    owner = 'harness'
     while tb is not None:
-        last = tb.tb_frame.f_code.co_filename
+        name = tb.tb_frame.f_code.co_filename.replace('\\', '/')
+        if '/vcheck/' in name:
+            owner = 'harness'
+        elif '/mapproxy/' in name:
+            owner = 'mapproxy'
         tb = tb.tb_next
-    return last is None or '/vcheck/' in last.replace('\\', '/') or 'mapproxy' not in last
+    return owner == 'harness' or isinstance(exc, MemoryError)
 
 
 def join_workers():
@@ -815,7 +820,7 @@ def normalise(case):
     return case
 
 
-def check_case(case, st_):
+def check_case(case, st_, exclude_known=True):
     try:
         grid = build_grid(case['grid'])
     except (ValueError, AssertionError, ZeroDivisionError, IndexError, OverflowError):
@@ -833,7 +838,7 @@ def check_case(case, st_):
     if not resolved:
         st_.excluded['no-request-left'] += 1
         return None
-    open_sigs = core.open_signatures(PROPERTY)
+    open_sigs = core.open_signatures(PROPERTY) if exclude_known else set()
     for setting in case['settings']:
         for s in known_construct(ref, setting, resolved) & open_sigs:
             st_.excluded['known-finding:' + s] += 1
@@ -918,5 +923,6 @@ def run(tier, seed, stats):
 
 
 def replay(case, stats):
-    v = check_case(normalise(case), stats)
+    # regression cases of open findings must keep demonstrating them: no exclusion by construction here
+    v = check_case(normalise(case), stats, exclude_known=False)
     return [v] if v else []
